@@ -882,6 +882,12 @@ def subscript(I, e, b):
             out.tags[k] = b.tag(k)
     if out.tags.get("finite") is False:
         out.tags.pop("finite")         # a selection of a not-all-finite array may well be all finite
+    sl_ = e.slice if isinstance(e, ast.Subscript) else None
+    if b.tag("asc_range") is not None and isinstance(sl_, ast.Slice) and sl_.lower is None and sl_.upper is None \
+            and isinstance(sl_.step, ast.UnaryOp) and isinstance(sl_.step.op, ast.USub) and isinstance(sl_.step.operand, ast.Constant) \
+            and sl_.step.operand.value == 1:
+        out.tags["desc_range"] = b.tag("asc_range")            # np.arange(n)[::-1]: n-1, …, 0
+        out.shape = b.shape
     if b.tag("truncated_basis") or (b.tag("basis_factor") and any(isinstance(x, ast.Slice) and (x.upper is not None or x.lower is not None)
                                                                    for x in _index_elems(e))):
         out.tags["truncated_basis"] = True        # a proper subset of the orthogonal directions
@@ -1508,7 +1514,9 @@ def call_method(I, e, base, attr, args, kws):
             nb.shp |= f.shp
             nb.ctrl |= f.ctrl | I.fr.ctrl[-1]
             nb.refs |= f.refs
-            for oid in base.refs:
+            # the container's OWN heap object receives the item — not the list objects that merely belong to earlier items
+            own = base.tag("own_obj")
+            for oid in ([own] if own is not None and own in heap else base.refs):
                 o = heap.get(oid)
                 if o is not None and o.kind == "list":
                     o.store(it.with_ctrl(I.fr.ctrl[-1]))
